@@ -13,7 +13,7 @@ pub open spec fn lines_of(t: Seq<char>) -> Seq<Seq<char>>
         Seq::empty()
     } else {
         match pk_find(PatKind::Pred(char_pred('\n')), t) {
-            Some(i) => seq![strip_cr(t.take(i))] + lines_of(t.skip(i + 1)),
+            Some(i) => if 0 <= i < t.len() { seq![strip_cr(t.take(i))] + lines_of(t.skip(i + 1)) } else { seq![t] },
             None => seq![t],
         }
     }
@@ -47,3 +47,10 @@ pub open spec fn spec_replace_le(t: Seq<char>, le: Seq<char>, force: bool) -> Se
 pub open spec fn spec_fmt_out(ws: Seq<char>, lines: Seq<Seq<char>>, trailing: bool, le: Seq<char>) -> Seq<char> {
     join_with(lines.map_values(|l: Seq<char>| ws + l), le) + (if trailing { le } else { Seq::<char>::empty() })
 }
+
+/// the strings an `impl Iterator<Item = impl AsRef<str>>` value yields, in order
+pub uninterp spec fn iter_strs<I>(i: I) -> Seq<Seq<char>>;
+
+/// a line as produced by `BufRead::lines`: no line feed inside
+pub open spec fn no_nl(l: Seq<char>) -> bool { !l.contains('\n') }
+pub open spec fn lines_clean(ls: Seq<Seq<char>>) -> bool { forall|i: int| 0 <= i < ls.len() ==> no_nl(#[trigger] ls[i]) }
